@@ -158,6 +158,6 @@ GradEval(g) ==
      ELSE IF FG = 1..g.R THEN [st |-> "allnan", fe |-> fe]
      ELSE IF \E f \in 1..3 : \E v \in 1..g.V : ge(f, v).st = "toofew" THEN [st |-> "toofew"]
      ELSE [st |-> "ok", fe |-> fe, grad |-> geF,
-           contrib |-> [f \in 1..3 |-> {r \in 1..g.R : unitsF[f][r] > 0}],
+           contrib |-> [f \in 1..3 |-> {r \in 1..g.R : unitsF[f][r] # 0}],
            units |-> unitsF]
 =============================================================================
